@@ -22,7 +22,9 @@ use tokio::time::timeout as tokio_timeout;
 
 use super::parse_bool_option;
 
-const MAX_DEALER_SEND_BUFFER_PARTS: usize = 10240;
+// Frames buffered for one frame-by-frame message; must stay within what a FrameBatch (255
+// frames, envelope included) can hold, so that the limit check below fires before a push panics.
+const MAX_DEALER_SEND_BUFFER_PARTS: usize = crate::socket::types::MAX_MULTIPART_FRAMES - 1;
 
 #[derive(Debug)]
 enum DealerSendTransaction {
